@@ -1,6 +1,7 @@
 HOOK_COMMITS = ["f2e3e94"]
 NOTES = "Runtime monitoring and sanitizers only. bin/check <id> --tier quick|thorough; VERIF_SEED seeds all random choices. Known findings: /verif/known_findings.json. See DESIGN.md."
 ENGINES = [
+    {"name": "ptrace-stepper", "path": "harness/w_proc/src/step.rs", "serves_properties": ["C04"], "kind_free_text": "PTRACE_SYSCALL stepping of scenario children; kill or hold at any system-call stop; marker syscalls for phases and atomic writes"},
     {"name": "allocation-shadow", "path": "harness/w_contain/src/c15.rs", "serves_properties": ["C15"], "kind_free_text": "interval-set shadow of live allocations, pattern fill, guard bytes, case shrinking"},
     {"name": "container-differential", "path": "harness/w_contain/src/c16.rs", "serves_properties": ["C16"], "kind_free_text": "exhaustive short histories + random long ones against std models, element life table"},
     {"name": "sequential-models", "path": "harness/w_ports/src", "serves_properties": ["C01", "C02", "C08", "C11"], "kind_free_text": "model-based random API histories over local and ipc services; exact reference model compared after every step; canaries; saturation probes; history shrinking"},
@@ -79,5 +80,12 @@ META = {
         "level_text": "Exploration: millions of random allocator cases over awkward layouts with a shadow interval set, plus port-level histories in which samples are held across repeated growth of a dynamic data segment.",
         "level_note": "Held on the cases observed only.",
         "design_ref": "DESIGN.md section 4 C15",
+    },
+    "C04": {
+        "engine": "ptrace stepper (kill at every system-call stop / atomic write) + survivor script",
+        "technique": "fault injection by ptrace at every system-call stop of lifecycle scenarios, judged by a survivor process script and a residue listing",
+        "level_text": "Fault enumeration: every inter-syscall crash point (thorough: plus every atomic shared-memory write) of five lifecycle scenarios is injected; the survivor's verdicts, cleanup results, residue and re-usability are classified.",
+        "level_note": "Enumerates process death only. Eleven outcome classes that fail on the pinned tree are genuine defects recorded in known_findings.json; any other class, phase or survivor failure is reported.",
+        "design_ref": "DESIGN.md section 4 C04",
     },
 }
